@@ -78,7 +78,7 @@ impl<SystemType : System> SysCache<SystemType> {
 //@ props C06
 //@ ret res
 //@ param Tracked(w): Tracked<&mut World>
-//@ addarg * /system\.(is_dir|is_file|rename)/ Tracked(w)
+//@ addarg * /system\.(is_dir|is_file|rename|remove_file)/ Tracked(w)
 //@ rewrite 1 /format!\("\{\}\/\{\}", self\.path, ticket\.human_readable\(\)\)/ => fmt_slash(&self.path, &ticket.human_readable())
 //@ spec
         requires old(self).wf(*old(w)), inv_cache(*old(w)), !under(old(w).cache_dir, target_path@), !old(w).files.contains_key(target_path@),
@@ -97,7 +97,7 @@ impl<SystemType : System> SysCache<SystemType> {
 //@ props C06
 //@ ret res
 //@ param Tracked(w): Tracked<&mut World>
-//@ addarg * /system\.rename/ Tracked(w)
+//@ addarg * /system\.(is_dir|is_file|rename|remove_file)/ Tracked(w)
 //@ rewrite 1 /format!\("\{\}\/\{\}", self\.path, ticket\.human_readable\(\)\)/ => fmt_slash(&self.path, &ticket.human_readable())
 //@ spec
         requires old(self).wf(*old(w)), inv_cache(*old(w)), !under(old(w).cache_dir, target_path@),
